@@ -2,6 +2,8 @@
 
 package jd
 
+import "strconv"
+
 // Deterministic pseudo-random document pairs for the bounded stand-ins: pair k is a random
 // document a (arrays up to length 7 with repeated elements, nesting up to depth 4, keys a..c)
 // and a document b obtained from a by one to three random edits (insert, delete, duplicate, swap,
@@ -477,4 +479,55 @@ func verifPatchedEquals(a, b, c JsonNode, o1, o2 []Option) string {
 		}
 	}
 	return ""
+}
+
+// verifScaleListPairs: long lists of distinct scalars (1200, 1500 and 2100 elements; thresholds such
+// as 512 or 1024 elements and 2^20 table cells lie below) with edits near both ends, so that a
+// bounded or windowed common-subsequence computation shows as a non-minimal or redundant diff.
+func verifScaleListPairs() ([]JsonNode, []JsonNode) {
+	nums := func(lo, hi int) jsonArray {
+		out := make(jsonArray, 0, hi-lo)
+		for i := lo; i < hi; i++ {
+			out = append(out, jsonNumber(i))
+		}
+		return out
+	}
+	var as, bs []JsonNode
+	// one pushed at the front, the last replaced
+	as = append(as, nums(0, 1200))
+	bs = append(bs, append(append(jsonArray{jsonString("new")}, nums(0, 1199)...), jsonString("edited")))
+	// first and last renamed
+	names := func(first, last string) jsonArray {
+		out := make(jsonArray, 1500)
+		for i := range out {
+			out[i] = jsonString("name-" + strconv.Itoa(i))
+		}
+		out[0], out[len(out)-1] = jsonString(first), jsonString(last)
+		return out
+	}
+	as = append(as, names("a0", "a1"))
+	bs = append(bs, names("b0", "b1"))
+	// one removed near the front, one inserted near the end, one changed in the middle
+	x := nums(0, 2100)
+	y := append(jsonArray{}, x[:3]...)
+	y = append(y, x[4:1050]...)
+	y = append(y, jsonString("mid"))
+	y = append(y, x[1051:2097]...)
+	y = append(y, jsonString("ins"))
+	y = append(y, x[2097:]...)
+	as = append(as, x)
+	bs = append(bs, y)
+	return as, bs
+}
+
+func verifScaleListA() []JsonNode { a, _ := verifScaleListPairs(); return a }
+func verifScaleListB() []JsonNode { _, b := verifScaleListPairs(); return b }
+
+// verifScaleLists (C06, C07, C01): minimality, adjacent context, no redundant hunk and the round trip
+// on long lists.
+func verifScaleLists(a, b JsonNode) string {
+	if !verifPatchGives(a, a.Diff(b), b, nil) {
+		return "C01: diff then patch"
+	}
+	return verifRandHunks(a, b)
 }
